@@ -19,9 +19,18 @@ func init() { register(&Monitor{ID: "C09", Run: runC09, Self: selfC09}) }
 // party is one of the values involved in a scenario: receiver, argument, a result, a Go-native result.
 type party struct {
 	name   string
-	val    any  // at.List, at.Object, []any, map[string]any, typed slice
-	last   any  // last top-level snapshot
-	frozen bool // plain values (strings, bools) — nothing to watch
+	val    any    // at.List, at.Object, []any, map[string]any, typed slice
+	last   any    // last top-level snapshot
+	frozen bool   // plain values (strings, bools) — nothing to watch
+	deep   string // last deep content (containers only)
+}
+
+func deepOf(v any) string {
+	switch v.(type) {
+	case at.List, at.Object:
+		return stringCanon(v)
+	}
+	return ""
 }
 
 // objectObservation selects how top() reads an object: 0 Keys()+Get, 1 Dict(), 2 ForEach.
@@ -262,6 +271,7 @@ func (s *c09Scenario) input() string { return "scenario:\n  " + strings.Join(s.t
 func (s *c09Scenario) add(name string, v any) *party {
 	p := &party{name: name, val: v}
 	p.last = top(v)
+	p.deep = deepOf(v)
 	if p.last == nil {
 		p.frozen = true
 	}
@@ -283,11 +293,19 @@ func (s *c09Scenario) verify(changed *party, sig, after string) {
 		}
 		if p == changed {
 			p.last = now
+			p.deep = deepOf(p.val)
 			continue
 		}
 		if !sameTop(p.last, now) {
 			s.failed = true
 			s.c.Violate(sig, s.input(), fmt.Sprintf("%s unchanged by %s: %s", p.name, after, showTop(p.last)), fmt.Sprintf("%s is now %s", p.name, showTop(now)))
+			return
+		}
+		// the mutations used here act on top-level slots only, so even the nested (possibly shared) containers of the
+		// other parties keep their content
+		if d := deepOf(p.val); d != p.deep {
+			s.failed = true
+			s.c.Violate(sig+"-nested", s.input(), fmt.Sprintf("content of %s (nested containers included) unchanged by %s: %s", p.name, after, spec.Trunc(p.deep, 600)), spec.Trunc(d, 600))
 			return
 		}
 	}
@@ -607,6 +625,17 @@ func mutateParty(r *rng.R, p *party) (desc string) {
 				}
 				fallthrough
 			case 2:
+				if keys.Count() > 0 && r.Bool() {
+					// a native Go map / slice over an existing field (whatever it holds)
+					k := keys.GetString(r.Intn(keys.Count()))
+					if r.Bool() {
+						x.Set(k, map[string]any{"fresh": 1})
+					} else {
+						x.Set(k, []any{"fresh"})
+					}
+					desc = fmt.Sprintf("Set(%q, native map/slice)", k)
+					return
+				}
 				x.Set("zz-new", 26)
 				desc = "Set(\"zz-new\", 26)"
 			default:
